@@ -125,6 +125,30 @@ def reset (resets : List String) (s : QState) : QState :=
     pushed := if resets.contains "self.recursion_detector" then [] else s.pushed
     counts := if resets.contains "self.inferred_element_counts" then Counts.empty else s.counts }
 
+/-! ### the execution budget across the queries of one Script
+
+`Script.<method>` as the execution budget sees it: the name of the public method and the trace of
+`push_execution` / `pop_execution` calls its body makes. A method that is in `resetFirst`
+(translator: the methods that open with `reset_recursion_limitations()`, or reach such a method
+through `self`) runs its trace on a NEW detector; any other method runs it on the detector the
+queries before it left behind. -/
+
+def apiQuery (L : Limits) (resetFirst : List String) (d : Det) (q : String × List Op) : Det × List Ev :=
+  runTrace L (if resetFirst.contains q.1 then Det.fresh else d) q.2
+
+/-- the queries of one Script in order: the detector after the last one, and the decisions
+(`limit_reached` of every push) of every query -/
+def apiSession (L : Limits) (resetFirst : List String) : Det → List (String × List Op) → Det × List (List Ev)
+  | d, [] => (d, [])
+  | d, q :: qs =>
+    let r := apiQuery L resetFirst d q
+    let rest := apiSession L resetFirst r.1 qs
+    (rest.1, r.2 :: rest.2)
+
+/-- `limit_reached` of every push of a trace -/
+def refusals (evs : List Ev) : List Bool :=
+  evs.filterMap (fun | .pushed _ lim _ _ => some lim | _ => none)
+
 /-- what the source fixes about a query body: the cap of `_limit_value_infers`, `MAX_PARAM_SEARCHES`
 and WHERE in `dynamic_params._avoid_recursions.wrapper` the statements
 `inf.dynamic_params_depth += 1` / `-= 1` stand (translator): tokens `<place>:inc` / `<place>:dec`, place one of
